@@ -742,6 +742,14 @@ func (w *messageWriter) Close() error {
 
 // WritePreparedMessage writes prepared message into connection.
 func (c *Conn) WritePreparedMessage(pm *PreparedMessage) error {
+	// Close previous writer if not already closed by the application, as
+	// NextWriter and WriteMessage do. Otherwise the prepared frame would be
+	// written in the middle of the unfinished message.
+	if c.writer != nil {
+		c.writer.Close()
+		c.writer = nil
+	}
+
 	frameType, frameData, err := pm.frame(prepareKey{
 		isServer:         c.isServer,
 		compress:         c.newCompressionWriter != nil && c.enableWriteCompression && isData(pm.messageType),
